@@ -12,6 +12,8 @@ import (
 	"net/http"
 	"net/http/httptest"
 	"net/url"
+	"os"
+	"path/filepath"
 	"reflect"
 	"runtime"
 	"strconv"
@@ -357,7 +359,6 @@ func c18Run(sc *c18Scenario) *c18Obs {
 			io.WriteString(w, h.body)
 		}))
 		defer c18E2EHandlers.Delete(id)
-		defer func(u *string) { *u = "" }(new(string))
 		sc.e2e = strings.TrimSuffix(sc.e2e, "/") + "/c/" + id
 	} else {
 		// first exchange of every attempt: the http.Client's transport
@@ -919,6 +920,52 @@ func (o *c18Obs) orderOracle(sc *c18Scenario) string {
 
 var c18FixClasses = []string{"c10-afterresponse-overwrites-err", "c10-nil-resp-retry", "c18-digest-stale-binding"}
 
+// c18OpenVariants lists the as-found code variants the lane may use to explain a difference:
+// a fix may be switched off only while known-findings.txt still carries the open: line of its
+// class for property C18 (so the classing tightens by itself as patches land). Most-repaired
+// variants first.
+func c18OpenVariants() []string {
+	dir := os.Getenv("VERIF_DIR")
+	if dir == "" {
+		dir = "/verif"
+	}
+	b, err := os.ReadFile(filepath.Join(dir, "known-findings.txt"))
+	if err != nil {
+		return nil
+	}
+	open := [3]bool{}
+	for _, l := range strings.Split(string(b), "\n") {
+		l = strings.TrimSpace(l)
+		if !strings.HasPrefix(l, "open:") || !strings.Contains(l, "property=C18 ") {
+			continue
+		}
+		for i, c := range c18FixClasses {
+			if strings.Contains(l, "class="+c+" ") {
+				open[i] = true
+			}
+		}
+	}
+	var out []string
+	for zeros := 1; zeros <= 3; zeros++ {
+		for m := 0; m < 8; m++ {
+			v, n, ok := "", 0, true
+			for i := 0; i < 3; i++ {
+				if m&(1<<i) != 0 {
+					v += "0"
+					n++
+					ok = ok && open[i]
+				} else {
+					v += "1"
+				}
+			}
+			if ok && n == zeros {
+				out = append(out, v)
+			}
+		}
+	}
+	return out
+}
+
 // c18Classify asks the model (repaired code, fixes 111) about every case and, for the cases
 // where the implementation differs, asks again for the code as found, fix by fix. It returns
 // the repaired model's answers and, per case, the most-repaired variant that reproduces the
@@ -936,9 +983,9 @@ func c18Classify(scs []*c18Scenario, impl []string) (model, variant, class []str
 	variant = make([]string, len(scs))
 	var qi []int
 	var q []string
-	variants := []string{"011", "101", "110", "001", "010", "100", "000"}
+	variants := c18OpenVariants()
 	for i := range scs {
-		if model[i] != impl[i] {
+		if model[i] != impl[i] && len(variants) > 0 {
 			for _, v := range variants {
 				q = append(q, scs[i].line(v))
 			}
